@@ -66,12 +66,15 @@ Rebase(ex) == ExDropZero(RebaseFrom(ex, <<>>))
 -----------------------------------------------------------------------------
 \* the action alphabet
 QQOps == {"add", "sub", "mul", "div", "eq", "np.linspace", "np.logspace"}            \* x (op) y, both quantities
-NQOps == {"radd", "rsub", "rmul", "rdiv", "np.linspace_nq", "np.logspace_nq"}         \* number (op) x
-QNOps == {"addn", "subn", "muln", "divn", "eqn", "np.linspace_qn", "np.logspace_qn"}  \* x (op) number
+NQOps == {"radd", "rsub", "rmul", "rdiv", "np.linspace_nq", "np.logspace_nq",        \* number (op) x
+          "rmul1"}                                                                     \* 1*x
+QNOps == {"addn", "subn", "muln", "divn", "eqn", "np.linspace_qn", "np.logspace_qn",  \* x (op) number
+          "muln1", "divn1", "addn0", "subn0"}                                          \* x*1, x/1, x+0, x-0: still operations
 SinOps == {"np.sin", "np.cos", "np.tan"}
 ArcOps == {"np.arcsin", "np.arccos", "np.arctan"}
 KeepOps == {"neg", "np.absolute", "np.abs", "np.round", "np.floor", "np.ceil", "np.sum", "getitem"}   \* result in x's units
-PowOps == {"pow2", "np.sqrt", "np.cbrt", "np.power"}
+PowOps == {"pow2", "np.sqrt", "np.cbrt", "np.power",
+           "pow1", "pow_pair11", "pow_float1", "np.power1"}        \* the trivial exponent, in four spellings
 QueryOps == {"np.isnan", "np.isnat", "np.iscomplexobj", "value0", "units", "abse_get", "str"}     \* return plain values
 UnaryOps == SinOps \cup ArcOps \cup KeepOps \cup PowOps \cup QueryOps \cup {"ctor_dict", "ctor_dict_abse"}
 ValueOps == {"value"}                                                               \* value(arg)
@@ -86,6 +89,7 @@ ASSUME DocNumpy \subseteq AllPureOps
 Act(op, x, y, arg) == [op |-> op, x |-> x, y |-> y, arg |-> arg]
 
 PowN(op) == CASE op = "pow2" -> RInt(2) [] op = "np.sqrt" -> R(1, 2) [] op = "np.cbrt" -> R(1, 3) [] op = "np.power" -> RInt(3)
+              [] op \in {"pow1", "pow_pair11", "pow_float1", "np.power1"} -> ROne
 
 \* is the call refused (an exception) - by the ideal's reading of the documentation
 \* (X, Y: the operand objects; the machine asks the same question about ITS view of the operands)
@@ -97,7 +101,7 @@ RefusesOn(A, X, Y) ==
     [] A.op = "eqn" -> ~Convertible(UNone, X.u)
     [] A.op \in {"np.linspace", "np.logspace"} -> ~Convertible(Y.u, X.u) \/ X.dec \/ Y.dec
     [] A.op \in {"np.linspace_nq", "np.logspace_nq", "np.linspace_qn", "np.logspace_qn", "np.round", "rele_set"} -> X.dec
-    [] A.op \in {"radd", "rsub", "addn", "subn"} -> ~ZeroDim(X.u) \/ IsLog(X.u)
+    [] A.op \in {"radd", "rsub", "addn", "subn", "addn0", "subn0"} -> ~ZeroDim(X.u) \/ IsLog(X.u)
     [] A.op = "rdiv" -> X.z
     [] A.op \in SinOps -> ~Convertible(X.u, URad) \/ X.dec
     [] A.op \in ArcOps -> ~ZeroDim(X.u) \/ X.dec
@@ -113,6 +117,7 @@ Refuses(A, io) == RefusesOn(A, io[A.x], IF A.y > 0 THEN io[A.y] ELSE io[A.x])
 \* units of a result from the units of the operands (also used by the machine with ITS units)
 ResUnit(A, ux, uy) ==
   CASE A.op \in {"add", "sub", "np.linspace", "np.logspace", "addn", "subn", "muln", "divn", "rmul",
+                 "muln1", "divn1", "addn0", "subn0", "rmul1",
                  "np.linspace_nq", "np.logspace_nq", "np.linspace_qn", "np.logspace_qn", "ctor_dict", "ctor_dict_abse"}
          \cup KeepOps -> Cancel(ux)
     [] A.op = "mul" -> Cancel(ExMerge(ux, uy, 1))
@@ -128,7 +133,8 @@ HasResult(op) == op \notin QueryOps \cup ValueOps \cup InplaceOps \cup {"eq", "e
 \* below only gives later in-place steps a defined starting point (NumPy functions return exact results).
 ResObj(A, io, tok) ==
   LET X == io[A.x]  Y == IF A.y > 0 THEN io[A.y] ELSE [q |-> 0, u |-> UNone, e |-> 0, dec |-> FALSE, arr |-> FALSE, z |-> FALSE]
-      arith == A.op \in {"add", "sub", "mul", "div", "radd", "rsub", "rmul", "rdiv", "addn", "subn", "muln", "divn", "neg", "pow2"}
+      arith == A.op \in {"add", "sub", "mul", "div", "radd", "rsub", "rmul", "rdiv", "addn", "subn", "muln", "divn", "neg", "pow2",
+                         "muln1", "divn1", "addn0", "subn0", "rmul1", "pow1", "pow_pair11", "pow_float1"}
   IN [q |-> IF A.op = "ctor_dict" \/ A.op = "ctor_dict_abse" THEN X.q ELSE tok,
       u |-> ResUnit(A, X.u, Y.u),
       e |-> IF A.op = "ctor_dict" THEN X.e
@@ -138,7 +144,7 @@ ResObj(A, io, tok) ==
       arr |-> IF A.op = "np.sum" THEN FALSE
               ELSE IF A.op \in {"np.linspace", "np.logspace", "np.linspace_nq", "np.logspace_nq", "np.linspace_qn", "np.logspace_qn"}
                    THEN TRUE ELSE X.arr \/ Y.arr,
-      z |-> (A.op = "sub" /\ A.x = A.y) \/ (A.op \in {"mul", "muln", "rmul", "neg", "np.abs", "np.absolute"} /\ (X.z \/ Y.z))]
+      z |-> (A.op = "sub" /\ A.x = A.y) \/ (A.op \in {"mul", "muln", "rmul", "neg", "np.abs", "np.absolute", "muln1", "divn1", "rmul1"} /\ (X.z \/ Y.z))]
 
 \* the ideal step
 IStep(A, io, tok) ==
